@@ -51,6 +51,17 @@ def cases(tier, rng):
             labs2 = ["I%d" % s_ for s_ in range(1, n + 1)] + ["P", "A1.7", "W1", "P:%d~Y" % pos, "P:0~Y", "P", "P"]
             out.append("y%d fq / %s / D" % (k, " / ".join(labs2)))
             k += 1
+    # a key that has more than one event queued (it delivered, its event was re-queued, and a new connection under the same
+    # identity replaced its stream) followed by other streams with items: one call must not give up before the queue is empty
+    for n in (2, 3):
+        for reins in (1, 2, 3):
+            labs = ["I1", "A1.11", "P"] + ["I1"] * reins + ["I%d" % s_ for s_ in range(2, n + 1)]
+            labs += ["A%d.%d" % (s_, s_ * 10 + 1) for s_ in range(2, n + 1)]
+            labs += ["P"]
+            out.append("u%d fq / %s / D" % (k, " / ".join(labs)))
+            k += 1
+            out.append("u%d fq / %s / P / D" % (k, " / ".join(labs[:-1])))
+            k += 1
     # a stream is removed (peer_disconnected) while the others have items queued / events pending
     for n in (2, 3, 4):
         for victim in range(1, n + 1):
@@ -166,6 +177,14 @@ def judge(line, obs, orc):
         pos = after.index("R1.7777")
         if pos > n - 1:
             return "stream 1 waited %d deliveries of others with %d streams (after an idle period the rotation must not depend on the others' backlog)" % (pos, n)
+    # u-cases: items are waiting on streams whose (insert) events are queued, no wake-up is needed to find them: the poll
+    # after the arrivals must hand one over - returning Pending there parks the receiver on a non-empty ready queue
+    if line.split()[0].startswith("u"):
+        last_arrival = max(i_ for i_, lab in enumerate(labels) if lab.startswith("A"))
+        tk = toks[last_arrival + 1].split("@")[0]
+        if not tk.startswith("R"):
+            return ("poll_next returned %s although an item was waiting on a stream whose event is queued (a key with more than one "
+                    "queued event came first): the receiver parks on a non-empty ready queue and nothing will wake it" % (tk or "nothing"))
     left = toks[-1]
     if left != "left=-":
         for kv in left[5:].split(","):
